@@ -16,15 +16,22 @@ pub mod utc;
 pub use utc::*;
 
 pub(super) fn fixed_timezone(offset: &str) -> String {
-    let gmt_offset = offset[2..offset.find(':').unwrap_or(3)].to_string();
+    // `offset` is chrono's rendering of a fixed offset: sign, hour digits, ':' and the minutes
+    let colon = offset.find(':').unwrap_or(offset.len());
+    let hours = offset[1..colon].trim_start_matches('0');
+    let minutes = offset.get(colon + 1..).unwrap_or("");
+    let whole_hours = minutes.bytes().all(|c| c == b'0' || c == b':');
 
-    if gmt_offset == "0" {
+    if hours.is_empty() && whole_hours {
         return "UTC".into();
     }
-    let gmt_sign = offset[0..1].to_string();
+    // POSIX style names have the sign inverted
+    let sign = if &offset[0..1] == "-" { "+" } else { "-" };
 
-    format!(
-        "Etc/GMT{sign}{gmt_offset}",
-        sign = if gmt_sign == "-" { "+" } else { "-" }
-    )
+    if whole_hours {
+        format!("Etc/GMT{sign}{hours}")
+    } else {
+        // No `Etc/GMT` zone has a fraction of an hour: this name matches no time zone
+        format!("Etc/GMT{sign}{hours}:{minutes}")
+    }
 }
